@@ -144,9 +144,12 @@ bool cmb_condition_signal(struct cmb_condition *cvp)
     }
 
     /* Allocate space enough to reactivate everything in the heap */
-    uint64_t *tmp = cmi_malloc(hp->heap_count * sizeof(*tmp));
+    struct cmi_heap_tag *tmp = cmi_malloc(hp->heap_count * sizeof(*tmp));
 
-    /* First pass, recording the satisfied demand predicates */
+    /*
+     * First pass, recording the satisfied demand predicates, kept in waiting
+     * list order (the heap array itself is only partially ordered)
+     */
     for (uint64_t ui = 1; ui <= hp->heap_count; ui++) {
         /* Decode the hashheap item */
         struct cmi_heap_tag *htp = &(hp->heap[ui]);
@@ -156,21 +159,27 @@ bool cmb_condition_signal(struct cmb_condition *cvp)
         const void *ctx = item[2];
 
         if ((*demand)(cvp, pp, ctx)) {
-            /* Satisfied, note it on the list, schedule wakeup event */
+            /* Satisfied, note it on the list */
             cmb_logger_info(stdout, "Condition %s satisfied for process %s",
                             rbp->name, pp->name);
-            tmp[cnt++] = htp->key;
-            const double time = cmb_time();
-            const int64_t priority = cmb_process_priority(pp);
-            (void)cmb_event_schedule(wakeup_event_condition, pp,
-                                     (void *)CMB_PROCESS_SUCCESS,
-                                     time, priority);
+            uint64_t uj = cnt++;
+            while ((uj > 0u) && (*hp->heap_compare)(htp, &(tmp[uj - 1u]))) {
+                tmp[uj] = tmp[uj - 1u];
+                uj--;
+            }
+            tmp[uj] = *htp;
         }
     }
 
-    /* Second pass, remove the satisfied waiters from the hashheap */
+    /* Second pass, schedule the wakeup events and remove the satisfied waiters */
     for (uint64_t ui = 0u; ui < cnt; ui++) {
-        cmi_hashheap_remove(hp, tmp[ui]);
+        struct cmb_process *pp = tmp[ui].item[0];
+        const double time = cmb_time();
+        const int64_t priority = cmb_process_priority(pp);
+        (void)cmb_event_schedule(wakeup_event_condition, pp,
+                                 (void *)CMB_PROCESS_SUCCESS,
+                                 time, priority);
+        cmi_hashheap_remove(hp, tmp[ui].key);
     }
 
     cmi_free(tmp);
